@@ -135,9 +135,12 @@ theorem vulnerableOsv_eq {V : Type} (S : Scheme V) (p : Pkg) (v : Vuln) (rv : V)
           | none => simp at hf3
           | some fv => simp [hf1, hf2]
 
-/-- The range test is downward closed down to the introduced bound. -/
-theorem inRange_mono {V : Type} (S : Scheme V) (hS : TotalPre S.cmp) {rv rv' : V} {intro fix la : Option V}
-    (h : inRange S rv intro fix la = true) (hle : S.cmp rv' rv ≠ .gt)
+/-- The range test is downward closed down to the introduced bound, given
+    the two transitivity instances it needs. -/
+theorem inRange_mono' {V : Type} (S : Scheme V) {rv rv' : V} {intro fix la : Option V}
+    (h : inRange S rv intro fix la = true)
+    (hlt : ∀ f, fix = some f → S.cmp rv f = .lt → S.cmp rv' f = .lt)
+    (hle : ∀ l, la = some l → S.cmp rv l ≠ .gt → S.cmp rv' l ≠ .gt)
     (hin : ∀ iv, intro = some iv → S.cmp rv' iv ≠ .lt) : inRange S rv' intro fix la = true := by
   unfold inRange at h ⊢
   simp only [Bool.and_eq_true] at h ⊢
@@ -148,13 +151,18 @@ theorem inRange_mono {V : Type} (S : Scheme V) (hS : TotalPre S.cmp) {rv rv' : V
   · cases fix with
     | some fv =>
       simp only [decide_eq_true_eq] at h ⊢
-      exact lt_down hS h.2 hle
+      exact hlt fv rfl h.2
     | none =>
       cases la with
       | none => rfl
       | some l =>
         simp only [decide_eq_true_eq] at h ⊢
-        exact le_down hS h.2 hle
+        exact hle l rfl h.2
+
+theorem inRange_mono {V : Type} (S : Scheme V) (hS : TotalPre S.cmp) {rv rv' : V} {intro fix la : Option V}
+    (h : inRange S rv intro fix la = true) (hle : S.cmp rv' rv ≠ .gt)
+    (hin : ∀ iv, intro = some iv → S.cmp rv' iv ≠ .lt) : inRange S rv' intro fix la = true :=
+  inRange_mono' S h (fun _ _ hlt => lt_down hS hlt hle) (fun _ _ hl => le_down hS hl hle) hin
 
 /-! ### claircore.Version / Range -/
 
